@@ -54,7 +54,7 @@ SPEC("pane.convert", "ConverterHandlers._process",
      no_raise=["C18"])
 
 SPEC("pane.convert", "_make_converter_key_f",
-     ensures=[(lambda ty, handlers, result: slen(result) == 2 and sat(result, 0) == id_of(ty) and sat(result, 1) is handlers, ["C10"], "key")],
+     ensures=[(lambda ty, handlers, result: slen(result) == 2 and sat(result, 0) == id_of(ty) and sat(result, 1) is handlers, ["C10", "C18"], "key")],
      no_raise=["C10"])
 
 
